@@ -16,6 +16,50 @@ fn main() {
         eprintln!("unknown property {id}");
         std::process::exit(2);
     };
+    if args[2] == "--export-corpus" {
+        // tool mode (not a check): writes one passing generated case per distinct set of classes as a libFuzzer seed
+        let (Some(part), Some(dir)) = (args.get(3), args.get(4)) else {
+            eprintln!("--export-corpus <part> <dir> [tries]");
+            std::process::exit(2);
+        };
+        let tries: u64 = args.get(5).and_then(|s| s.parse().ok()).unwrap_or(20_000);
+        let Some(p) = parts.into_iter().find(|p| p.check.id() == part) else {
+            eprintln!("unknown part {part}");
+            std::process::exit(2);
+        };
+        std::fs::create_dir_all(dir).expect("corpus directory");
+        let mut seen = std::collections::BTreeSet::new();
+        let mut x: u64 = 0x9e3779b97f4a7c15;
+        let mut written = 0;
+        for i in 0..tries {
+            let len = (p.check.max_entropy().min(1024) as u64 * (1 + i % 4) / 4) as usize;
+            let data: Vec<u8> = (0..len)
+                .map(|_| {
+                    x ^= x << 13;
+                    x ^= x >> 7;
+                    x ^= x << 17;
+                    // mostly small bytes: simple cases are the useful seeds
+                    if x & 0x300 == 0 { (x >> 16) as u8 } else { ((x >> 16) as u8) & 0x3f }
+                })
+                .collect();
+            let mut ctx = Ctx::default();
+            let (r, _) = run_one(p.check.as_ref(), &data, &mut ctx);
+            if r.is_err() || !ctx.nontrivial {
+                continue;
+            }
+            let mut sig: Vec<&str> = ctx.classes.iter().copied().collect();
+            sig.sort();
+            if seen.insert(sig.join("+")) {
+                std::fs::write(format!("{dir}/seed{written:03}"), &data).expect("write seed");
+                written += 1;
+                if written >= 256 {
+                    break;
+                }
+            }
+        }
+        eprintln!("{written} seeds for {part} in {dir}");
+        std::process::exit(0);
+    }
     let code = if args[2] == "--replay" {
         let Some(path) = args.get(3) else {
             eprintln!("--replay needs a file");
